@@ -817,6 +817,17 @@ class Canon:
             sink(s.orelse)
             if changed31:
                 return [s], 0
+        if isinstance(s, ast.If) and s.orelse and all(isinstance(x, ast.Pass) for x in s.orelse):
+            s.orelse = []
+            return [s], 0
+        if isinstance(s, ast.If) and s.orelse and all(isinstance(x, ast.Pass) for x in s.body):
+            return [_loc(ast.If(test=negate(s.test), body=s.orelse, orelse=[]), s)], 0
+        if isinstance(s, ast.If) and not s.orelse and all(isinstance(x, ast.Pass) for x in s.body) and not any(
+            isinstance(n, (ast.Call, ast.Await, ast.NamedExpr)) for n in ast.walk(s.test)
+        ):
+            return [], 0
+        if isinstance(s, ast.Pass) and (rest or prev):
+            return [], 0
         if isinstance(s, ast.If):
             # S1 else hoisting
             if s.orelse and jumps(s.body):
